@@ -79,7 +79,7 @@ def payload_len(rng, thorough=False, maxlen=None):
         n = rng.randint(1020, 1028)
     elif r < 0.95:
         n = rng.randint(41, 600)
-    elif r < 0.99 or not thorough:
+    elif r < 0.997 or not thorough:
         n = rng.randint(8188, 8196)
     else:
         n = rng.randint(65530, 65540)
